@@ -143,29 +143,36 @@ def sig_of(b: bytes, seed: int) -> str:
         "y" if any(x >= 0x80 for x in b) else "n", "y" if seed >= 2**31 else "n")
 
 
-def judge(chk, b: bytes, seed: int, exp: int, got, note=""):
+def show(b: bytes) -> str:
+    s = b.decode("latin-1")
+    return repr(s) if len(s) <= 48 else f"{s[:24]!r}...{s[-8:]!r} ({len(s)} chars)"
+
+
+def judge(chk, b: bytes, seed: int, exp: int, got, note="", fill=None):
     """got = ('ret', v) | ('exc', e)"""
     detail = {"codepoints": list(b), "seed": seed}
+    if fill is not None:  # long inputs are recorded by their construction, not byte by byte
+        detail = {"fill": fill, "length": len(b), "seed": seed}
     if got[0] == "exc":
         e = got[1]
         chk.violation(
             "raises|%s|tail=%d" % (type(e).__name__, len(b) % 4),
-            f"murmur3_32({b.decode('latin-1')!r}, {seed:#x}) raised {type(e).__name__}: {e}", detail)
+            f"murmur3_32({show(b)}, {seed:#x}) raised {type(e).__name__}: {e}", detail)
         return
     v = got[1]
     if type(v) is not int:
         chk.violation(f"type|{type(v).__name__}",
-                      f"murmur3_32({b.decode('latin-1')!r}, {seed:#x}) returned {v!r} of type "
+                      f"murmur3_32({show(b)}, {seed:#x}) returned {v!r} of type "
                       f"{type(v).__name__}, not int", detail)
     elif v != exp:
         chk.violation(
             sig_of(b, seed),
-            f"murmur3_32({b.decode('latin-1')!r}, seed={seed:#x}) = {v:#x}, MurmurHash3_x86_32 = {exp:#010x} "
+            f"murmur3_32({show(b)}, seed={seed:#x}) = {v:#x}, MurmurHash3_x86_32 = {exp:#010x} "
             f"(C and struct references agree){note}", detail)
 
 
-def eval_batch(chk, inputs, seeds, tag):
-    """inputs: list of bytes, all of one length."""
+def eval_batch(chk, inputs, seeds, tag, fill=None):
+    """inputs: list of bytes, all of one length (fill: index into fills() when there is one long input)."""
     if not inputs:
         return
     L = len(inputs[0])
@@ -186,10 +193,10 @@ def eval_batch(chk, inputs, seeds, tag):
             try:
                 got = f(s, seed)
             except Exception as e:  # noqa
-                judge(chk, b, seed, exp, ("exc", e))
+                judge(chk, b, seed, exp, ("exc", e), fill=fill)
                 continue
             if got != exp or type(got) is not int:
-                judge(chk, b, seed, exp, ("ret", got))
+                judge(chk, b, seed, exp, ("ret", got), fill=fill)
             if L or seed:
                 classes.add((L, seed, exp >> 28))
     chk.add(k)
@@ -320,7 +327,8 @@ def _worker(job, chk):
                         "c_ref": ref.c_ref(b, 1), "struct_ref": ref.py_ref(b, 1)})
     elif kind == "long":
         fs = fills(job[1])
-        eval_batch(chk, fs if job[2] is None else [fs[job[2]]], SEEDS_CORE, "long")
+        for i in (range(len(fs)) if job[2] is None else [job[2]]):
+            eval_batch(chk, [fs[i]], SEEDS_CORE, "long", fill=i)
     elif kind == "everyvalue":
         eval_batch(chk, every_value_inputs(job[1]), SEEDS_CORE, "every_value_every_position")
     elif kind == "vectors":
@@ -403,7 +411,8 @@ def replay(detail):
         v = ref.smhasher_verification(impl_bytes)
         print(f"    SMHasher verification through murmur3_32: {v:#x} (published 0xb0f57ee3)")
         return [] if v == ref.SMHASHER_VERIFICATION else [f"SMHasher verification value {v:#x} != 0xb0f57ee3"]
-    cps, seed = detail["codepoints"], detail["seed"]
+    seed = detail["seed"]
+    cps = list(fills(detail["length"])[detail["fill"]]) if "fill" in detail else detail["codepoints"]
     s = "".join(map(chr, cps))
     chk = runner.Check(PROPERTY, LEVEL, "replay", 0)
     if all(c < 256 for c in cps):
@@ -413,7 +422,7 @@ def replay(detail):
             got = ("ret", murmur3_32(s, seed))
         except Exception as e:  # noqa
             got = ("exc", e)
-        print(f"    input {b!r} seed {seed:#x}: C reference {c:#x}, struct reference {p:#x}, murmur3_32 -> {got[1]!r}")
+        print(f"    input {show(b)} seed {seed:#x}: C reference {c:#x}, struct reference {p:#x}, murmur3_32 -> {got[1]!r}")
         if c != p:
             raise runner.HarnessError("references disagree")
         if got != ("ret", c) or type(got[1]) is not int:
